@@ -45,7 +45,15 @@ type c11Case struct {
 	Name   string   `json:"gnb_name,omitempty"`
 	RanID  int64    `json:"ran_ue_ngap_id,omitempty"`
 	AmfID  int64    `json:"amf_ue_ngap_id,omitempty"`
+	// Refused: the AMF answers the first NG SETUP REQUEST(s) with NG SETUP FAILURE (cause misc, Time to wait 1 s —
+	// an AMF that is starting up or overloaded, TS 38.413 8.7.1.3) before the NG SETUP RESPONSE. Whether the gNB
+	// asks again is its business; EVERY request it sends announces the PLMN of the configuration.
+	Refused int `json:"ng_setup_refused,omitempty"`
 }
+
+// NG SETUP FAILURE, octet by octet: unsuccessfulOutcome, procedure 21, reject, 13 octets: 2 IEs: Cause (15, ignore)
+// = misc/control-processing-overload, TimeToWait (107, ignore) = v1s
+var ngSetupFailure = []byte{0x40, 0x15, 0x00, 0x0d, 0x00, 0x00, 0x02, 0x00, 0x0f, 0x40, 0x01, 0x80, 0x00, 0x6b, 0x40, 0x01, 0x00}
 
 func c11Fail(key, format string, a ...interface{}) (string, error) {
 	return key, fmt.Errorf(format, a...)
@@ -199,21 +207,8 @@ func c11Check(c c11Case) (string, error) {
 	return c11Wire(c, imsi, wantPLMN, reg, dereg)
 }
 
-// c11Wire: the real ManageNGSetup on a socket, then the Get* wrappers; octets read by refid.
-func c11Wire(c c11Case, imsi string, wantPLMN, reg, dereg []byte) (string, error) {
-	p, err := getPipe()
-	if err != nil {
-		panic("infrastructure: " + err.Error())
-	}
-	if err := p.queue(ngSetupResponse); err != nil {
-		panic("infrastructure: " + err.Error())
-	}
-	// as main does: ManageNGSetup(conn, c.Configuration.Gnb_id, "imsi-"+initial_imsi, mnc, bitlength, name)
-	stgutg.ManageNGSetup(p.conn, string(c.GnbID), "imsi-"+imsi, c.MNC, uint64(c.BitLen), c.Name)
-	req, err := p.recv()
-	if err != nil {
-		panic("infrastructure: " + err.Error())
-	}
+// c11JudgeNGSetupRequest: one NG SETUP REQUEST as the AMF sees it.
+func c11JudgeNGSetupRequest(c c11Case, imsi string, wantPLMN, req []byte) (string, error) {
 	m, err := refid.ReadNGAP(req)
 	if err != nil || m.Class != 0 || m.ProcedureCode != 21 {
 		return c11Fail("NGSetupRequest:framing", "not an NG SETUP REQUEST (%v): %x", err, req)
@@ -261,6 +256,45 @@ func c11Wire(c c11Case, imsi string, wantPLMN, reg, dereg []byte) (string, error
 			}
 		}
 	}
+	return "", nil
+}
+
+// c11Wire: the real ManageNGSetup on a socket, then the Get* wrappers; octets read by refid.
+func c11Wire(c c11Case, imsi string, wantPLMN, reg, dereg []byte) (string, error) {
+	p, err := getPipe()
+	if err != nil {
+		panic("infrastructure: " + err.Error())
+	}
+	for i := 0; i < c.Refused; i++ {
+		if err := p.queue(ngSetupFailure); err != nil {
+			panic("infrastructure: " + err.Error())
+		}
+	}
+	if err := p.queue(ngSetupResponse); err != nil {
+		panic("infrastructure: " + err.Error())
+	}
+	// as main does: ManageNGSetup(conn, c.Configuration.Gnb_id, "imsi-"+initial_imsi, mnc, bitlength, name)
+	stgutg.ManageNGSetup(p.conn, string(c.GnbID), "imsi-"+imsi, c.MNC, uint64(c.BitLen), c.Name)
+	req, err := p.recv()
+	if err != nil {
+		panic("infrastructure: " + err.Error())
+	}
+	if k, err := c11JudgeNGSetupRequest(c, imsi, wantPLMN, req); err != nil {
+		return k, err
+	}
+	if c.Refused > 0 {
+		// whatever else the gNB sent (requests repeated after the refusals), and the answers it did not read
+		for n := 2; ; n++ {
+			more, ok := p.recvNow()
+			if !ok {
+				break
+			}
+			if k, err := c11JudgeNGSetupRequest(c, imsi, wantPLMN, more); err != nil {
+				return k + ":after-ng-setup-failure", fmt.Errorf("message %d of the gNB after %d NG SETUP FAILURE(s): %v", n, c.Refused, err)
+			}
+		}
+		p.discardDownlink()
+	}
 
 	wireULI := func(what string, b []byte, e error, class, proc int) (string, error) {
 		if e != nil {
@@ -307,7 +341,7 @@ func c11Wire(c c11Case, imsi string, wantPLMN, reg, dereg []byte) (string, error
 }
 
 func c11Oracle(c c11Case) ev.Verdict {
-	v := ev.Verdict{Hash: ev.HashBytes([]byte(c.MCC + "/" + c.MNC + "/" + c.MSIN + fmt.Sprint(c.Wire, c.BitLen, c.RanID, c.AmfID, c.Name, []byte(c.GnbID))))}
+	v := ev.Verdict{Hash: ev.HashBytes([]byte(c.MCC + "/" + c.MNC + "/" + c.MSIN + fmt.Sprint(c.Wire, c.BitLen, c.RanID, c.AmfID, c.Name, []byte(c.GnbID), c.Refused)))}
 	if len(c.MCC) != 3 || (len(c.MNC) != 2 && len(c.MNC) != 3) || len(c.MSIN) < 1 || len(c.MCC)+len(c.MNC)+len(c.MSIN) > 15 {
 		v.Skip = true
 		return v
@@ -324,6 +358,9 @@ func c11Oracle(c c11Case) ev.Verdict {
 	}
 	if c.Wire {
 		v.Classes = append(v.Classes, "wire(ManageNGSetup+Get*)", fmt.Sprintf("gnb-bits=%d", c.BitLen))
+		if c.Refused > 0 {
+			v.Classes = append(v.Classes, "wire:ng-setup-refused-first")
+		}
 	}
 	v.Key, v.Err = c11Check(c)
 	return v
@@ -381,6 +418,9 @@ func TestC11_Sweep(t *testing.T) {
 			}
 			c.RanID = int64(i % 10000)
 			c.AmfID = int64(i) * 1000003 % (1 << 40)
+			if i/wireEvery%5 == 3 {
+				c.Refused = 1 + i/wireEvery/5%2
+			}
 		}
 		if !r.Each(t, c, ev.SafeOracle(c11Oracle, c)) {
 			return
@@ -415,6 +455,9 @@ func genC11(t *rapid.T) c11Case {
 	c.Name = string(rapid.SliceOfN(rapid.SampledFrom(printable), 1, 150).Draw(t, "name"))
 	c.RanID = rapid.OneOf(rapid.Just(int64(0)), rapid.Just(int64(1<<32-1)), rapid.Int64Range(0, 1<<32-1)).Draw(t, "ranid")
 	c.AmfID = rapid.OneOf(rapid.Just(int64(0)), rapid.Just(int64(1<<40-1)), rapid.Just(int64(1<<32)), rapid.Int64Range(0, 1<<40-1)).Draw(t, "amfid")
+	if rapid.IntRange(0, 4).Draw(t, "refused_first") == 2 {
+		c.Refused = rapid.IntRange(1, 2).Draw(t, "refused")
+	}
 	return c
 }
 
